@@ -640,3 +640,7 @@ func zzOpOf(doc *ast.Document) *ast.OperationDefinition {
 	}
 	return nil
 }
+
+func zzTryParse(text string) (*ast.Document, error) {
+	return parser.Parse(parser.ParseParams{Source: &source.Source{Body: []byte(text), Name: "zz"}})
+}
